@@ -111,6 +111,12 @@ func (r *Run) switchConsts(fn *ssa.Function, calleeOfValue string) map[string]bo
 				if fc.Kind == "cmp" && fc.Op == "==" && fc.B.Op == "const" && core.MatchTerm(calleeOfValue, fc.A, core.Bind{}) {
 					out[strings.Trim(fc.B.Name, `"`)] = true
 				}
+				// dispatch through a table: the value was found in a package-level map literal that nothing writes
+				if fc.Kind == "hit" && fc.A != nil && fc.A.Op == "global" && fc.B != nil && core.MatchTerm(calleeOfValue, fc.B, core.Bind{}) {
+					for _, k := range r.readOnlyMapKeys(fc.A) {
+						out[k] = true
+					}
+				}
 			}
 		}
 	}
@@ -163,6 +169,16 @@ func (r *Run) checkActionTables(P string) {
 			}
 			if n >= 8 && ri.Class == core.RetFail {
 				okDefault = true
+			}
+		}
+		// table form: the edge on which the action is not found in the table only reaches errors
+		for _, b := range f.Blocks {
+			for _, s2 := range b.Succs {
+				for _, fc := range ff.EdgeFacts(b, s2) {
+					if fc.Kind == "miss" && fc.A != nil && fc.A.Op == "global" && fc.B != nil && core.MatchTerm("Patch.GetAction(_)", fc.B, core.Bind{}) && len(r.readOnlyMapKeys(fc.A)) > 0 && onlyErrors(ff, s2) {
+						okDefault = true
+					}
+				}
 			}
 		}
 		r.R.Check(okDefault, P+".actions.default."+core.FuncName(f), "E7: an action outside the set is an error", core.FuncName(f), r.where(f), why, "default → error", "no failing return after all eight comparisons failed")
@@ -1568,4 +1584,55 @@ func hitLeadsToError(ff *core.FnFacts) bool {
 		}
 	}
 	return ok
+}
+
+// readOnlyMapKeys: the constant keys of the map literal a package-level variable (term g) is initialised with, provided
+// nothing in its package stores into the variable or into the map (nil otherwise).
+func (r *Run) readOnlyMapKeys(g *core.Term) []string {
+	gv, ok := g.Val.(*ssa.Global)
+	if !ok || gv.Pkg == nil {
+		return nil
+	}
+	keys, lit := r.mapLiteralKeys(core.Rel(gv.Pkg.Pkg.Path()), gv.Name())
+	if !lit {
+		return nil
+	}
+	for fn := range r.P.AllFuncs {
+		root := fn
+		for root.Parent() != nil {
+			root = root.Parent()
+		}
+		if root.Pkg != gv.Pkg {
+			continue
+		}
+		for _, b := range fn.Blocks {
+			for _, ins := range b.Instrs {
+				switch x := ins.(type) {
+				case *ssa.Store:
+					if x.Addr == ssa.Value(gv) && fn.Name() != "init" {
+						return nil
+					}
+				case *ssa.MapUpdate:
+					if ld, isLd := x.Map.(*ssa.UnOp); isLd && ld.X == ssa.Value(gv) {
+						return nil
+					}
+				case *ssa.Call:
+					// handed to a function (other than len): it could be written there
+					for _, a := range x.Common().Args {
+						if ld, isLd := a.(*ssa.UnOp); isLd && ld.X == ssa.Value(gv) {
+							if bi, isB := x.Common().Value.(*ssa.Builtin); !isB || bi.Name() != "len" {
+								return nil
+							}
+						}
+					}
+				}
+			}
+		}
+	}
+	var out []string
+	for k := range keys {
+		out = append(out, k)
+	}
+	sort.Strings(out)
+	return out
 }
